@@ -848,54 +848,39 @@ Qed.
 Lemma ftp_loop_inv fuel v6 dial s b :
   ftp_inv s ->
   let '(o, s', _) := ftp_loop fuel v6 dial s b in
-  ftp_inv s' /\ (o = Returned -> f_data s' = DNone).
+  ftp_inv s' /\ (finished o = true -> f_data s' = DNone).
 Proof.
   revert s b; induction fuel as [|f IH]; intros s b Hi; cbn [ftp_loop].
-  - repeat split; auto; congruence.
-  - destruct (read_bytes (S f) 10 [] b) as [line e b1|]; [|repeat split; auto; congruence].
+  - split; [assumption|cbn; congruence].
+  - destruct (read_bytes (S f) 10 [] b) as [line e b1|]; [|split; [assumption|cbn; congruence]].
     pose proof (close_data_inv s Hi) as [C1 C2].
-    destruct e; try (repeat split; auto; congruence).
+    destruct e; try (split; [assumption|intros; assumption]).
     pose proof (ftp_cmd_inv v6 dial s line Hi) as Hc.
     destruct (ftp_cmd v6 dial s line) as [st k]; cbn [fst] in Hc.
     destruct st; cbn [fstep_ok] in Hc.
     + apply IH; exact Hc.
-    + destruct Hc; repeat split; auto; congruence.
-    + repeat split; auto; congruence.
-    + repeat split; auto; congruence.
+    + destruct Hc; split; auto.
+    + destruct (close_data_inv s0 Hc); split; auto.
+    + split; [assumption|cbn; congruence].
 Qed.
 
-(* when the control loop returns nothing is held.  After a recovered panic (ftp's own
-   Conn.Close() is not reached) the session's data socket is left as it is: an unconnected
-   passive socket sits on its Accept deadline; an ACCEPTED data connection is kept *)
-Definition ftp_panic_kept (d : dsock) : res := if data_connected d then mkRes 0 0 1 else res0.
-
+(* when the control loop is over - by returning or by a recovered panic - nothing is held *)
 Lemma handle_ftp_res v6 dial fuel c :
   let h := handle_ftp v6 dial fuel c in
-  (h_out h = Returned -> h_res h = res0 /\ h_late h = res0) /\
-  (h_out h = Panicked -> kept h = ftp_panic_kept (ftp_final_data v6 dial fuel c)).
+  finished (h_out h) = true -> h_res h = res0 /\ h_late h = res0.
 Proof.
-  unfold handle_ftp, ftp_final_data, handle_ftp_st.
+  unfold handle_ftp, handle_ftp_st.
   pose proof (ftp_loop_inv fuel v6 dial ftp_init (bswrite (new_reader c)) ftp_init_inv) as H.
   destruct (ftp_loop fuel v6 dial ftp_init (bswrite (new_reader c))) as [[o s] b].
-  destruct H as (Hi & Hr). cbn [h_out h_res h_late fst snd]. unfold ftp_inv in Hi.
-  split; intros Ho; subst o.
-  - rewrite (Hr eq_refl) in Hi; cbn [shape] in Hi. injection Hi as A B C.
-    unfold ftp_res, ftp_late. rewrite B, C. replace (f_gor s - 1) with 0 by lia. split; reflexivity.
-  - unfold kept, ftp_res, ftp_late, ftp_panic_kept, data_connected; cbn [h_res h_late].
-    destruct (f_data s) as [|[]]; cbn [shape connected] in *; injection Hi as A B C;
-      rewrite B, C; unfold res_sub, res0; cbn [r_gor r_lis r_fds]; f_equal; lia.
+  destruct H as (Hi & Hr). cbn [h_out h_res h_late]. unfold ftp_inv in Hi. intros Ho.
+  rewrite (Hr Ho) in Hi; cbn [shape] in Hi. injection Hi as A B C.
+  unfold ftp_res, ftp_late. rewrite B, C. replace (f_gor s - 1) with 0 by lia. split; reflexivity.
 Qed.
 
 Lemma handle_ftp_kept v6 dial fuel c :
-  finished (h_out (handle_ftp v6 dial fuel c)) = true ->
-  ~ (h_out (handle_ftp v6 dial fuel c) = Panicked /\ data_connected (ftp_final_data v6 dial fuel c) = true) ->
-  kept (handle_ftp v6 dial fuel c) = res0.
+  finished (h_out (handle_ftp v6 dial fuel c)) = true -> kept (handle_ftp v6 dial fuel c) = res0.
 Proof.
-  pose proof (handle_ftp_res v6 dial fuel c) as [Hr Hp]. cbv zeta in Hr, Hp.
-  destruct (h_out (handle_ftp v6 dial fuel c)) eqn:E; cbn [finished]; try congruence; intros _ Hn.
-  - destruct (Hr eq_refl) as [A B]. unfold kept; rewrite A, B; reflexivity.
-  - rewrite (Hp eq_refl). unfold ftp_panic_kept.
-    destruct (data_connected _) eqn:D; [exfalso; apply Hn; auto|reflexivity].
+  intros Hf. destruct (handle_ftp_res v6 dial fuel c Hf) as [A B]. unfold kept; rewrite A, B; reflexivity.
 Qed.
 
 (* every other service holds nothing when Handle is over, whatever happened *)
@@ -940,30 +925,21 @@ Proof.
   - pose proof (handle_smtp_ends (fuel_for c) c Hf) as [H|[H|H]]; rewrite H in *; auto; congruence.
 Qed.
 
-(* the one thing the repaired code still keeps: the accepted data connection of an ftp session
-   that ends in a recovered panic (PORT / EPRT with too few fields, PASV on an IPv6 address) *)
-Definition panic_keeps_data_conn (s : scn) (c : conn) : Prop :=
-  sc_svc s = Ftp /\ h_out (handle s (fuel_for c) c) = Panicked /\
-  data_connected (ftp_final_data (sc_v6 s) (sc_dial s) (fuel_for c) c) = true.
-
 Lemma handle_kept s c :
-  h_out (handle s (fuel_for c) c) <> Unmodelled -> ~ panic_keeps_data_conn s c ->
-  kept (handle s (fuel_for c) c) = res0.
+  h_out (handle s (fuel_for c) c) <> Unmodelled -> kept (handle s (fuel_for c) c) = res0.
 Proof.
-  intros Hu Hn. pose proof (handle_ends s c Hu) as Hfin.
+  intros Hu. pose proof (handle_ends s c Hu) as Hfin.
   destruct (svc_eq_dec (sc_svc s) Ftp) as [E|E].
-  - unfold panic_keeps_data_conn in Hn. unfold handle in *; rewrite E in *.
-    apply handle_ftp_kept; [exact Hfin|]. intros [A B]; apply Hn; auto.
+  - unfold handle in *; rewrite E in *. apply handle_ftp_kept; exact Hfin.
   - destruct (handle_other_res s (fuel_for c) c E) as [H1 H2]. unfold kept; rewrite H1, H2; reflexivity.
 Qed.
 
-(* a handler that returned (no panic) holds nothing at all at that moment *)
-Lemma handle_returned_clean s c :
-  h_out (handle s (fuel_for c) c) = Returned -> h_res (handle s (fuel_for c) c) = res0.
+(* a handler that is over - returned, or panicked and recovered - holds nothing at that moment *)
+Lemma handle_finished_clean s c :
+  finished (h_out (handle s (fuel_for c) c)) = true -> h_res (handle s (fuel_for c) c) = res0.
 Proof.
   intros Ho. destruct (svc_eq_dec (sc_svc s) Ftp) as [E|E].
-  - unfold handle in *; rewrite E in *.
-    destruct (handle_ftp_res (sc_v6 s) (sc_dial s) (fuel_for c) c) as [Hr _]. apply Hr; exact Ho.
+  - unfold handle in *; rewrite E in *. apply handle_ftp_res; exact Ho.
   - apply handle_other_res; exact E.
 Qed.
 
@@ -990,26 +966,15 @@ Qed.
 
 Definition in_fragment (s : scn) (c : conn) : Prop := h_out (handle s (fuel_for c) c) <> Unmodelled.
 
-Definition covered (s : scn) (c : conn) : Prop := in_fragment s c /\ ~ panic_keeps_data_conn s c.
-
-Lemma history_zero s cs : Forall (covered s) cs -> history s cs = res0.
+Lemma history_zero s cs : Forall (in_fragment s) cs -> history s cs = res0.
 Proof.
-  induction 1 as [|c cs [Hc Hn] _ IH]; cbn [history]; [reflexivity|].
-  rewrite IH, (handle_kept s c Hc Hn); reflexivity.
+  induction 1 as [|c cs Hc _ IH]; cbn [history]; [reflexivity|].
+  rewrite IH, (handle_kept s c Hc); reflexivity.
 Qed.
 
-Lemma history_repeat_zero s c n : covered s c -> history s (repeat c n) = res0.
+Lemma history_repeat_zero s c n : in_fragment s c -> history s (repeat c n) = res0.
 Proof.
-  intros [Hc Hn]. rewrite history_repeat, (handle_kept s c Hc Hn). unfold res_scale, res0; cbn; f_equal; lia.
-Qed.
-
-(* inside that class exactly one descriptor per session stays *)
-Lemma panic_keeps_one s c :
-  panic_keeps_data_conn s c -> kept (handle s (fuel_for c) c) = mkRes 0 0 1.
-Proof.
-  intros (E & Ho & D). unfold handle in *; rewrite E in *.
-  destruct (handle_ftp_res (sc_v6 s) (sc_dial s) (fuel_for c) c) as [_ Hp].
-  rewrite (Hp Ho). unfold ftp_panic_kept; rewrite D; reflexivity.
+  intros Hc. rewrite history_repeat, (handle_kept s c Hc). unfold res_scale, res0; cbn; f_equal; lia.
 Qed.
 
 (* ------------------------------------------------------------------ *)
